@@ -32,8 +32,9 @@ def parse(text: str, statement_stream_processor: "StatementStreamProcessor", *, 
         pr.flush()  # The text may end without a line feed: commit the last attribute and its trailing comment.
     except _error.Error as ex:
         # Inject error location. If this exception is being propagated from a recursive instance, it already has
-        # its error location populated, so nothing will happen here.
-        ex.set_error_location_if_unknown(line=pr.current_line_number)
+        # its path populated; its line number, if any, refers to that other file, so the local one shall not be used.
+        if ex.path is None:
+            ex.set_error_location_if_unknown(line=pr.current_line_number)
         raise ex
     except parsimonious.ParseError as ex:
         raise DSDLSyntaxError("Syntax error", line=int(ex.line())) from None  # type: ignore
